@@ -1271,6 +1271,17 @@ fn collect(core: &mut Option<Core>, end_hint: Option<End>) -> RunOutcome {
     stats.payloads = payloads;
     stats.clones = clones;
     stats.views = views;
+    let mut mem = mem;
+    if let Some((_addr, size)) = rt::galloc::take_double_free() {
+        if mem.is_none() {
+            mem = Some(rt::state::MemViolation {
+                class: "double_free",
+                what: format!("a heap block of {} bytes owned by the queue's bookkeeping (e.g. the reader list inside a ReaderGroup) was freed twice", size),
+                step: stats.steps,
+                task: 0,
+            });
+        }
+    }
     let ledger = payload::take_violations();
     let leaks = if end == End::Completed { payload::leak_report() } else { Vec::new() };
     let fin = FINAL.with(|f| std::mem::take(&mut *f.borrow_mut()));
@@ -1410,7 +1421,7 @@ fn prepare(scn: &Scenario, cfg: &SchedCfg) {
             r.trap_countdown.set(nth);
             r.trap_len.set(len);
         }
-        payload::reset(r.exec_id.get(), scn.slow_clone, scn.slow_view);
+        payload::reset(r.exec_id.get(), scn.slow_clone, scn.slow_view, scn.slow_drop);
         r.trace.set(std::env::var_os("VERIF_TRACE").is_some());
         r.active.set(true);
     });
